@@ -67,7 +67,7 @@ func (s step) String() string {
 		return s.Op + ":" + short(s.Ev)
 	case "tick":
 		return fmt.Sprintf("tick%d", s.N)
-	case "stop", "dlmissing":
+	case "stop", "dlmissing", "gen1stop", "gen2":
 		return s.Op
 	}
 	return fmt.Sprintf("%s%d", s.Op, s.B)
@@ -98,6 +98,7 @@ type caseSpec struct {
 	Pipeline    int    `json:"pipeline"`
 	Blobs       []int  `json:"blobs"` // pool indexes
 	Stall       []int  `json:"stall"` // pieces written before writes stall; -1 = no stall
+	TwoSeeders  bool   `json:"two_seeders,omitempty"`
 	Steps       []step `json:"steps"`
 }
 
@@ -133,8 +134,68 @@ func genCase(r *rand.Rand, id int) *caseSpec {
 	k := 1 + r.Intn(3)
 
 	var pool []step
+	big := 2 + r.Intn(2) // pool index of a blob with 4 or 7 pieces
 	switch w := r.Intn(100); {
-	case w < 45:
+	case w < 4:
+		// The blob is cached, a request opens it (complete Torrent object) and
+		// parks; a removal deletes the blob; another request re-creates the
+		// download file; then the parked requests reach the loop.
+		c.Kind = "recreated"
+		dls(0, 1)
+		add(step{Op: "fill", B: 0})
+		if r.Intn(2) == 0 {
+			add(idleS)
+		}
+		add(step{Op: "hold", Ev: rig.EvNewTorrent}, step{Op: "dl", B: 0}, step{Op: "rm", B: 0}, step{Op: "dl", B: 0})
+		if r.Intn(2) == 0 {
+			add(step{Op: "release1", Ev: rig.EvNewTorrent})
+		}
+		add(step{Op: "release", Ev: rig.EvNewTorrent})
+		pool = []step{{Op: "fill", B: 0}, {Op: "tick", N: 1}, {Op: "stop"}, {Op: "dl", B: 0}, idleL, {Op: "rm", B: 0}}
+	case w < 10:
+		// A first scheduler generation leaves a partial download; in the second
+		// one a remote leecher connects first (control created for the incoming
+		// conn), then a local request joins it.
+		c.Kind = "revived"
+		c.Blobs, c.Stall = []int{big}, []int{1 + r.Intn(poolPieces[big]-2)}
+		two = false
+		add(step{Op: "dl", B: 0}, step{Op: "stallwait", B: 0}, step{Op: "gen1stop"}, step{Op: "gen2"})
+		dls(0, 1+r.Intn(2))
+		if r.Intn(10) < 7 {
+			if r.Intn(3) == 0 {
+				add(step{Op: "hold", Ev: rig.EvComplete})
+			}
+			add(step{Op: "fill", B: 0})
+		}
+		pool = []step{
+			{Op: "fill", B: 0}, {Op: "rm", B: 0}, idleS, idleL, {Op: "dl", B: 0}, {Op: "stop"},
+			{Op: "tick", N: 1}, {Op: "release", Ev: rig.EvComplete}, {Op: "dl", B: 0},
+		}
+	case w < 18:
+		// The final move of the completed download file into the cache fails once.
+		c.Kind = "move-fault"
+		add(step{Op: "failmove", B: 0})
+		dls(0, k)
+		add(step{Op: "fill", B: 0})
+		pool = []step{
+			idleS, {Op: "dl", B: 0}, {Op: "tick", N: 1}, {Op: "rm", B: 0}, {Op: "stop"}, {Op: "dl", B: 0}, idleL, {Op: "fill", B: 0},
+		}
+	case w < 25:
+		// Two seeders; the last two pieces are written concurrently.
+		c.Kind = "two-seeders"
+		c.TwoSeeders = true
+		c.Pipeline = 1
+		c.Blobs, c.Stall = []int{big}, []int{poolPieces[big] - 2}
+		two = false
+		if r.Intn(2) == 0 {
+			add(step{Op: "hold", Ev: rig.EvComplete})
+		}
+		dls(0, k)
+		add(step{Op: "stallwait", B: 0, N: 2}, step{Op: "fill", B: 0})
+		pool = []step{
+			{Op: "release", Ev: rig.EvComplete}, {Op: "dl", B: 0}, {Op: "tick", N: 1}, idleS, {Op: "rm", B: 0}, {Op: "stop"}, {Op: "dl", B: 0},
+		}
+	case w < 55:
 		// The torrent completes while its completion notice is held.
 		c.Kind = "complete-held"
 		add(step{Op: "hold", Ev: rig.EvComplete})
@@ -153,7 +214,7 @@ func genCase(r *rand.Rand, id int) *caseSpec {
 		case 2:
 			pool = append(pool, step{Op: "hold", Ev: rig.EvNewTorrent}, step{Op: "release", Ev: rig.EvNewTorrent})
 		}
-	case w < 70:
+	case w < 75:
 		// Writes stall part-way: the torrent stays in progress.
 		c.Kind = "mid-download"
 		n := poolPieces[b0]
@@ -172,7 +233,7 @@ func genCase(r *rand.Rand, id int) *caseSpec {
 		case 2:
 			pool = append(pool, step{Op: "hold", Ev: rig.EvTick}, step{Op: "release", Ev: rig.EvTick})
 		}
-	case w < 85:
+	case w < 90:
 		// Requests park before their newTorrentEvent reaches the loop.
 		c.Kind = "newtorrent-held"
 		add(step{Op: "hold", Ev: rig.EvNewTorrent})
@@ -224,6 +285,7 @@ type worker struct {
 	tracker *rig.Tracker
 	seeder  *rig.Peer
 	sgate   *rig.Gate // seeder-side event counters (diagnostics only)
+	seeder2 *rig.Peer // only handed out by the tracker in "two-seeders" cases
 	pool    []*rig.Blob
 	missing *rig.Blob
 }
@@ -258,6 +320,19 @@ func newWorker(run *ev.Run, id int, base string) (*worker, error) {
 		w.tracker.Register(b.InfoHash(), core.PeerInfoFromContext(w.seeder.Pctx, true))
 		w.pool = append(w.pool, b)
 	}
+	w.seeder2, err = rig.NewPeer(rig.PeerOptions{
+		Config: seederConfig(), Clock: clock.NewMock(), Tracker: w.tracker,
+		Dir: rig.MkDir(w.dir, "seeder2"), PeerID: rig.RandomPeerID(r),
+	})
+	if err != nil {
+		return nil, err
+	}
+	for _, b := range w.pool {
+		if err := w.seeder2.Seed(b); err != nil {
+			return nil, fmt.Errorf("seed2: %s", err)
+		}
+	}
+	w.tracker.Forget(w.seeder2.Pctx.PeerID)  // its own announces registered it
 	w.missing = rig.NewBlob(r, 2, 64, false) // never added to the tracker
 	return w, nil
 }
@@ -287,10 +362,11 @@ type window struct{ lo, hi int64 }
 // newTorrentEvent answered immediately by a complete control), with the state
 // of the cache when the event had finished applying.
 type delivery struct {
-	stamp    int64 // taken before apply: lies inside the interval of every call it answered
-	name     string
-	inCache  bool
-	mismatch bool
+	stamp      int64 // taken before apply: lies inside the interval of every call it answered
+	name       string
+	inCache    bool
+	mismatch   bool
+	inDownload bool // the (partial or unmoved) file is in the download store
 }
 
 type caseRun struct {
@@ -307,6 +383,7 @@ type caseRun struct {
 
 	stamp   atomic.Int64
 	loopGID atomic.Int64
+	lp      atomic.Pointer[rig.Peer] // current leecher generation, for goroutines other than the controller
 
 	mu         sync.Mutex
 	stores     map[int][]window                       // windows in which blob b was moved to the cache
@@ -318,17 +395,25 @@ type caseRun struct {
 	atShutdown map[int]scheduler.VerifC17TorrentState // control state when shutdownEvent was applied
 	pre        map[int]scheduler.VerifC17TorrentState
 
-	calls              []*call
-	rmCalls            []chan error
-	stopStarted        bool
-	stopDone           chan struct{}
-	ticksWhileParked   int
-	executed           []string
-	closedOnce         map[int]bool
-	errsAck            map[int]int // piece write errors per blob already taken into account by fill
-	inconcl            string
-	wedged             bool
-	actionsWithPending int
+	calls                   []*call
+	rmCalls                 []chan error
+	stopStarted             bool
+	stopDone                chan struct{}
+	ticksWhileParked        int
+	executed                []string
+	closedOnce              map[int]bool
+	errsAck                 map[int]int // piece write errors per blob already taken into account by fill
+	beforeApply, afterApply func(scheduler.VerifC17EventInfo, scheduler.VerifC17View)
+	archHooks               *rig.ArchiveHooks
+	lID                     core.PeerID
+	lDir                    string
+	extra                   []*rig.Peer         // remote leecher of the revived kind
+	orderPrefix             string              // applied-event order of an earlier scheduler generation
+	blocker                 map[int]string      // blob -> path of the file which makes the move into the cache fail
+	brokenRef               map[int]interface{} // blob -> dispatcher of the control which had a piece write fail
+	inconcl                 string
+	wedged                  bool
+	actionsWithPending      int
 }
 
 func (cr *caseRun) next() int64 { return cr.stamp.Add(1) }
@@ -365,7 +450,6 @@ func leecherConfig(c *caseSpec) scheduler.Config {
 func (cr *caseRun) setup() error {
 	c := cr.spec
 	cr.clk = clock.NewMock()
-	cr.gate = rig.NewGate()
 	cr.wgate = rig.NewGate()
 	cr.stores = map[int][]window{}
 	cr.deliveries = map[int][]delivery{}
@@ -388,7 +472,7 @@ func (cr *caseRun) setup() error {
 	}
 
 	// Loop-side monitor: runs on the leecher's event loop goroutine.
-	cr.gate.BeforeApply = func(info scheduler.VerifC17EventInfo, v scheduler.VerifC17View) {
+	cr.beforeApply = func(info scheduler.VerifC17EventInfo, v scheduler.VerifC17View) {
 		if cr.loopGID.Load() == 0 {
 			cr.loopGID.Store(rig.GID())
 		}
@@ -417,7 +501,7 @@ func (cr *caseRun) setup() error {
 			}
 		}
 	}
-	cr.gate.AfterApply = func(info scheduler.VerifC17EventInfo, v scheduler.VerifC17View) {
+	cr.afterApply = func(info scheduler.VerifC17EventInfo, v scheduler.VerifC17View) {
 		for i, b := range cr.blobs {
 			pre, post := cr.pre[i], v.Torrent(b.InfoHash())
 			// Could this event have delivered a result for blob i? Then the cache is
@@ -428,9 +512,9 @@ func (cr *caseRun) setup() error {
 			immediate := info.Name == rig.EvNewTorrent && cr.blobIndex(info.InfoHash, info.Digest) == i &&
 				post.Present && post.Complete
 			if released || immediate {
-				st := cr.L.Stat(b, true)
+				st := cr.lp.Load().Stat(b, true)
 				cr.mu.Lock()
-				cr.deliveries[i] = append(cr.deliveries[i], delivery{cr.curStamp, info.Name, st.InCache, st.Mismatch})
+				cr.deliveries[i] = append(cr.deliveries[i], delivery{cr.curStamp, info.Name, st.InCache, st.Mismatch, st.InDownload})
 				cr.mu.Unlock()
 			}
 			if pre.Present && !pre.Complete && (!post.Present || post.Ref != pre.Ref) {
@@ -479,7 +563,7 @@ func (cr *caseRun) setup() error {
 		}
 		if err == nil {
 			cr.run.Count("pieces_written", 1)
-			if cr.L != nil && cr.L.InCache(cr.blobs[i]) {
+			if L := cr.lp.Load(); L != nil && L.InCache(cr.blobs[i]) {
 				l, _ := lo.Load(fmt.Sprintf("%d/%d", i, piece))
 				lov, _ := l.(int64)
 				cr.mu.Lock()
@@ -491,15 +575,62 @@ func (cr *caseRun) setup() error {
 		cr.wgate.Exit(fmt.Sprintf("write:%d", i), err == nil)
 	}
 
+	cr.archHooks = hooks
+	cr.blocker = map[int]string{}
+	cr.brokenRef = map[int]interface{}{}
+	cr.lID = rig.RandomPeerID(cr.run.Rand("peerid-" + cr.id))
+	cr.lDir = rig.MkDir(cr.w.dir, cr.id)
+	if c.TwoSeeders {
+		for _, b := range cr.blobs {
+			cr.w.tracker.Register(b.InfoHash(), core.PeerInfoFromContext(cr.w.seeder2.Pctx, true))
+		}
+	}
+	return cr.startLeecher()
+}
+
+// startLeecher starts a scheduler generation of the leecher on its directory
+// (whatever an earlier generation left there) with a fresh event gate.
+func (cr *caseRun) startLeecher() error {
+	cr.gate = rig.NewGate()
+	cr.gate.BeforeApply, cr.gate.AfterApply = cr.beforeApply, cr.afterApply
+	cr.loopGID.Store(0)
+	hooks := cr.archHooks
 	var err error
-	r := cr.run.Rand("peerid-" + cr.id)
 	cr.L, err = rig.NewPeer(rig.PeerOptions{
-		Config: leecherConfig(c), Clock: cr.clk, Tracker: cr.w.tracker,
-		Dir: rig.MkDir(cr.w.dir, cr.id), PeerID: rig.RandomPeerID(r),
+		Config: leecherConfig(cr.spec), Clock: cr.clk, Tracker: cr.w.tracker,
+		Dir: cr.lDir, PeerID: cr.lID,
 		WrapArchive: func(a storage.TorrentArchive) storage.TorrentArchive { return rig.NewArchiveWrapper(a, hooks) },
 		Hooks:       cr.gate.Hooks(),
 	})
+	if err == nil {
+		cr.lp.Store(cr.L)
+	}
 	return err
+}
+
+// blockMove makes the next move of blob i's download file into the cache fail:
+// a regular file takes the place of the first missing directory of its cache
+// path (stands in for ENOSPC / EIO at that step).
+func (cr *caseRun) blockMove(i int) {
+	hex := cr.blobs[i].Digest.Hex()
+	p := cr.lDir + "/cache"
+	for _, c := range []string{hex[0:2], hex[2:4], hex} {
+		p += "/" + c
+		if _, err := os.Stat(p); err != nil {
+			if os.WriteFile(p, []byte("verif: move fault"), 0o644) == nil {
+				cr.blocker[i] = p
+			}
+			return
+		}
+	}
+}
+
+func (cr *caseRun) unblockMove(i int) {
+	if p := cr.blocker[i]; p != "" {
+		os.Remove(p)
+		delete(cr.blocker, i)
+		cr.run.Count("move_to_cache_blocked_then_unblocked", 1)
+	}
 }
 
 func (cr *caseRun) pendingCalls() int {
@@ -696,9 +827,95 @@ func (cr *caseRun) execStep(idx int, s step) {
 		cr.startDownload(idx, -1)
 		done()
 
+	case "failmove":
+		cr.blockMove(s.B)
+		done()
+
+	case "gen1stop":
+		// Generation 1 ends with a download in progress. The piece it holds at
+		// the write gate lands during shutdown; the partial file stays on disk.
+		name := "write:0"
+		before := cr.wgate.Count(name)
+		cr.doStop()
+		if cr.wedged || !cr.stopped() {
+			return
+		}
+		cr.gate.ReleaseAll()
+		if before.Parked > 0 {
+			cr.wgate.ReleaseOne(name)
+			if !cr.wgate.Wait(watchdog, func(count func(string) rig.Counters) bool { return count(name).Sent > before.Sent }) {
+				cr.fail("watchdog: in-flight piece write of generation 1 did not finish")
+				return
+			}
+		}
+		cr.L.CloseStoreOnly()
+		cr.w.tracker.Forget(cr.lID)
+		// The seeder must have noticed that the conn is gone, or it would reject
+		// the next generation (same peer id) as a duplicate.
+		for deadline := time.Now().Add(watchdog); ; time.Sleep(time.Millisecond) {
+			has := false
+			cr.w.seeder.Sched.VerifC17Inspect(func(v scheduler.VerifC17View) { has = v.HasConn(cr.lID, cr.blobs[0].InfoHash()) })
+			if !has {
+				break
+			}
+			if time.Now().After(deadline) {
+				cr.fail("watchdog: seeder kept the conn of generation 1")
+				return
+			}
+		}
+		if st := cr.L.Stat(cr.blobs[0], false); !st.InDownload {
+			cr.fail("generation 1 left no partial download")
+			return
+		}
+		cr.orderPrefix = cr.order() + " | "
+		done()
+
+	case "gen2":
+		cr.stopStarted, cr.stopDone = false, nil
+		cr.closedOnce = map[int]bool{}
+		if err := cr.startLeecher(); err != nil {
+			cr.fail("generation 2: " + err.Error())
+			return
+		}
+		h := cr.blobs[0].InfoHash()
+		tB := rig.NewTracker()
+		tB.AddBlob(cr.blobs[0])
+		tB.Register(h, core.PeerInfoFromContext(cr.L.Pctx, false))
+		B, err := rig.NewPeer(rig.PeerOptions{
+			Config: seederConfig(), Clock: cr.clk, Tracker: tB, Dir: rig.MkDir(cr.lDir+"-remote", "B"),
+			PeerID: rig.RandomPeerID(cr.run.Rand("remote-" + cr.id)),
+		})
+		if err != nil {
+			cr.fail("remote leecher: " + err.Error())
+			return
+		}
+		cr.extra = append(cr.extra, B)
+		d := cr.blobs[0].Digest
+		go func() { _ = B.Sched.Download(rig.Namespace, d) }()
+		if !cr.gate.Wait(watchdog, func(count func(string) rig.Counters) bool { return count("incomingConnEvent").Applied >= 1 }) {
+			cr.fail("watchdog: the remote leecher did not connect")
+			return
+		}
+		if st, ok := cr.L.TorrentState(h); !ok || !st.Present || st.Complete {
+			cr.fail("generation 2 has no in-progress control created by the incoming conn")
+			return
+		}
+		cr.run.Count("controls_created_by_incoming_conn_on_partial_download", 1)
+		done()
+
 	case "stallwait":
 		name := fmt.Sprintf("write:%d", s.B)
-		if !cr.wgate.Wait(watchdog, func(count func(string) rig.Counters) bool { return count(name).Parked >= 1 }) {
+		want := s.N
+		if want < 1 {
+			want = 1
+		}
+		if want > 1 && !cr.wgate.Wait(3*time.Second, func(count func(string) rig.Counters) bool { return count(name).Parked >= want }) {
+			// Best effort (no verdict depends on it): the second seeder's handshake
+			// may have been rejected, then all pieces come from one peer.
+			cr.run.Count("stallwait_second_parked_write_gave_up", 1)
+			want = 1
+		}
+		if !cr.wgate.Wait(watchdog, func(count func(string) rig.Counters) bool { return count(name).Parked >= want }) {
 			cr.fail("watchdog: writes did not reach the stall point")
 		}
 		done()
@@ -722,6 +939,10 @@ func (cr *caseRun) execStep(idx int, s step) {
 			skip("seeder-blacklisted")
 			return
 		}
+		if ref, ok := cr.brokenRef[s.B]; ok && ref == st.Ref {
+			skip("a-piece-write-of-this-control-failed") // never retried without the request timers
+			return
+		}
 		// Progress is only guaranteed with a conn to the seeder (or a piece already
 		// waiting at the write gate).
 		hasConn := false
@@ -741,6 +962,7 @@ func (cr *caseRun) execStep(idx int, s step) {
 			cr.errsAck[s.B] = w.Sent - w.SentOK
 			cr.wgate.Release(wname)
 			cr.run.Count("fill_ended_by_piece_write_error", 1)
+			cr.brokenRef[s.B] = st.Ref
 			cr.executed = append(cr.executed, "fill-failed("+s.String()+":earlier-piece-write-error)")
 			return
 		}
@@ -792,10 +1014,14 @@ func (cr *caseRun) execStep(idx int, s step) {
 				st.Present, st.Complete, st.Waiters, nc, cr.wgate.Count(wname)))
 			return
 		}
+		if writeFailed {
+			cr.unblockMove(s.B) // the fault hits once
+		}
 		if writeFailed && cr.wgate.Count(stored).Applied == beforeStored {
 			w := cr.wgate.Count(wname)
 			cr.errsAck[s.B] = w.Sent - w.SentOK
 			cr.run.Count("fill_ended_by_piece_write_error", 1)
+			cr.brokenRef[s.B] = st.Ref
 			cr.executed = append(cr.executed, "fill-failed("+s.String()+":piece-write-error)")
 			return
 		}
@@ -814,7 +1040,8 @@ func (cr *caseRun) execStep(idx int, s step) {
 		before := cr.gate.Count(rig.EvRemove)
 		d := cr.blobs[s.B].Digest
 		fin := make(chan struct{})
-		go func() { ch <- cr.L.Sched.RemoveTorrent(d); close(fin) }()
+		L := cr.L
+		go func() { ch <- L.Sched.RemoveTorrent(d); close(fin) }()
 		if !cr.settleDoneOr(fin, func(count func(string) rig.Counters) bool {
 			return count(rig.EvRemove).Parked > before.Parked
 		}) {
@@ -873,10 +1100,12 @@ func (cr *caseRun) execStep(idx int, s step) {
 func (cr *caseRun) doStop() {
 	cr.stopStarted = true
 	cr.stopDone = make(chan struct{})
-	go func() { cr.L.Sched.Stop(); close(cr.stopDone) }()
+	L, stopDone := cr.L, cr.stopDone
+	go func() { L.Sched.Stop(); close(stopDone) }()
 	applied := make(chan struct{})
+	g := cr.gate
 	go func() {
-		cr.gate.Wait(10*watchdog, func(count func(string) rig.Counters) bool { return count(rig.EvShutdown).Applied > 0 })
+		g.Wait(10*watchdog, func(count func(string) rig.Counters) bool { return count(rig.EvShutdown).Applied > 0 })
 		close(applied)
 	}()
 	if !cr.awaitLoop(applied, "stop") {
@@ -989,6 +1218,7 @@ func (cr *caseRun) awaitLoop(done <-chan struct{}, where string) bool {
 
 func (cr *caseRun) order() string {
 	var sb strings.Builder
+	sb.WriteString(cr.orderPrefix)
 	for i, a := range cr.gate.Log() {
 		if i > 0 {
 			sb.WriteByte(' ')
@@ -1030,7 +1260,15 @@ func (cr *caseRun) teardown() {
 	// The stub tracker hands out every peer that ever announced; a dead leecher
 	// left in the list would take one of the next leecher's 10 pending-conn
 	// slots (and with a mock clock nothing re-announces).
-	defer cr.w.tracker.Forget(cr.L.Pctx.PeerID)
+	defer func() {
+		cr.w.tracker.Forget(cr.lID)
+		cr.w.tracker.Forget(cr.w.seeder2.Pctx.PeerID)
+	}()
+	defer func() {
+		for _, p := range cr.extra {
+			p.Close()
+		}
+	}()
 	cr.gate.ReleaseAll()
 	cr.wgate.ReleaseAll()
 	if !cr.stopStarted && !cr.wedged {
@@ -1044,6 +1282,7 @@ func (cr *caseRun) teardown() {
 		cr.L.Close()
 	}
 	os.RemoveAll(cr.L.Dir)
+	os.RemoveAll(cr.lDir + "-remote")
 }
 
 func (cr *caseRun) execute() {
@@ -1076,7 +1315,8 @@ func (cr *caseRun) execute() {
 		if !cr.stopStarted {
 			pd := make(chan struct{})
 			var perr error
-			go func() { perr = cr.L.Sched.Probe(); close(pd) }()
+			L := cr.L
+			go func() { perr = L.Sched.Probe(); close(pd) }()
 			if !cr.awaitLoop(pd, "probe after "+s.String()) {
 				break
 			}
@@ -1182,6 +1422,13 @@ early:
 			cause = "complete-unnotified-torrent-dropped-by-" + d
 		} else if st := cr.atShutdown[c.b]; st.Present && st.Waiters > 0 {
 			cause = "waiter-present-at-shutdown-not-notified"
+		} else {
+			// an event emptied the waiter list of the control during the call
+			for _, d := range cr.deliveries[c.b] {
+				if d.stamp >= c.startStamp && d.name != rig.EvNewTorrent {
+					cause = "waiters-released-by-" + d.name + "-but-call-not-answered"
+				}
+			}
 		}
 		cr.mu.Unlock()
 		cr.run.Count("downloads_parked_after_stop", 1)
@@ -1220,6 +1467,7 @@ early:
 		// return time. A deletion by a later event stays tolerated.
 		justified := c.endPresent
 		lastDelivery, lastDeliveryStamp := "", int64(-1) // the last candidate before the return is the one that answered this call
+		lastUnmoved := false
 		cr.mu.Lock()
 		for _, d := range cr.deliveries[c.b] {
 			if d.stamp < c.startStamp || d.stamp > c.endStamp {
@@ -1229,6 +1477,7 @@ early:
 				justified = true
 			}
 			lastDelivery, lastDeliveryStamp = d.name, d.stamp
+			lastUnmoved = d.inDownload && !d.inCache
 		}
 		// A stale completion notice explains the result only when no event that
 		// can have answered the call lies in its interval (a stale notice which
@@ -1246,6 +1495,9 @@ early:
 			sig := "success-without-blob/other"
 			if staleInCall {
 				sig = "success-without-blob/stale-completion-notice-applied-to-new-torrent"
+			} else if lastUnmoved {
+				// the torrent counted as complete while its file had not reached the cache
+				sig = "success-without-blob/complete-reported-while-file-still-in-download-store"
 			} else if lastDelivery == rig.EvRemove {
 				sig = "success-without-blob/blob-deleted-by-the-event-that-reported-success"
 			} else if lastDelivery == rig.EvNewTorrent {
@@ -1293,13 +1545,14 @@ func (cr *caseRun) launch(stepIdx, b int) *call {
 	c := &call{id: fmt.Sprintf("%s-call%d", cr.id, len(cr.calls)), b: b, step: stepIdx, done: make(chan struct{})}
 	cr.calls = append(cr.calls, c)
 	cr.mu.Unlock()
+	L := cr.L // the generation this call belongs to
 	go func() {
 		c.gid.Store(rig.GID())
 		c.startStamp = cr.next()
-		c.startPresent = b >= 0 && cr.L.InCache(blob)
-		c.err = cr.L.Sched.Download(rig.Namespace, blob.Digest)
+		c.startPresent = b >= 0 && L.InCache(blob)
+		c.err = L.Sched.Download(rig.Namespace, blob.Digest)
 		if b >= 0 {
-			st := cr.L.Stat(blob, c.err == nil)
+			st := L.Stat(blob, c.err == nil)
 			c.endPresent, c.endExact, c.mismatch = st.InCache, !st.Mismatch, st.MismatchInfo
 		}
 		c.endStamp = cr.next()
@@ -1322,6 +1575,7 @@ func stress(t *testing.T, run *ev.Run, base string) {
 				return
 			}
 			defer w.seeder.Close()
+			defer w.seeder2.Close()
 			for i := wi; i < rounds; i += workers {
 				r := run.Rand(fmt.Sprintf("stress-%d", i))
 				spec := &caseSpec{
@@ -1399,7 +1653,9 @@ func stress(t *testing.T, run *ev.Run, base string) {
 func TestC17(t *testing.T) {
 	run := ev.Start(t, "C17", "exploration",
 		"PRNG-generated schedules against a real leecher scheduler (mock clock, gated event loop) and a real in-process seeder: "+
-			"a window (completion notice held after the last piece / piece writes stalled / newTorrentEvent held / free-running) "+
+			"a window (completion notice held after the last piece / piece writes stalled / newTorrentEvent held / free-running / "+
+			"revived: a first scheduler generation leaves a partial download, in the second a remote leecher's incoming conn creates the control before a local request joins / "+
+			"move-fault: the final move into the cache fails once / two-seeders: the last two pieces are written concurrently) "+
 			"followed by a random subset, in random order, of RemoveTorrent, idle-limit clock advances with their preemption ticks, "+
 			"further Download calls (known and unknown blobs), holds/releases of a second event type, release of the held notice, "+
 			"Stop, and a request after Stop; 1-2 blobs, 1-7 pieces. A case is non-trivial when at least one injected action "+
@@ -1433,6 +1689,7 @@ func TestC17(t *testing.T) {
 				return
 			}
 			defer w.seeder.Close()
+			defer w.seeder2.Close()
 			for i := wi; i < n; i += workers {
 				spec := specs[i]
 				if rc := run.ReplayCase(); rc != "" && rc != spec.key() {
